@@ -324,3 +324,122 @@ Proof.
   replace (length vals - n + (n - 1 - m))%nat with (length vals - 1 - m)%nat in E1 by lia.
   replace (ip + 5) with (ip + 1 + 4) by lia. exact E1.
 Qed.
+
+(* ------------------------------------------------------------------ *)
+(* E. examples: compile (the compiler model) and run (the VM model)    *)
+(* ------------------------------------------------------------------ *)
+Definition x_f : str := [102].
+Definition x_g : str := [103].
+Definition x_h : str := [104].
+Definition x_x : str := [120].
+Definition x_pa : str := [97].
+Definition x_pb : str := [98].
+Definition x_ga : str := [103; 97].
+Definition x_gb : str := [103; 98].
+Definition x_r : str := [114].
+Definition x_gx : str := [103; 120].
+Definition fn_ab (cards : list card) : function := {| f_args := [x_pa; x_pb]; f_cards := cards |}.
+Definition fn_a (cards : list card) : function := {| f_args := [x_pa]; f_cards := cards |}.
+Definition f_body : list card :=
+  [CSetGlobalVar x_ga (CReadVar x_pa); CSetGlobalVar x_gb (CReadVar x_pb);
+   CUn UReturn (CBin BSub (CReadVar x_pa) (CReadVar x_pb))].
+
+(* f(a, b) = [ga := a; gb := b; return a - b];  main = [x := 7; r := f(1, 2); gx := x] *)
+Definition ex_bind_module : module :=
+  Module [] [(s_main, fn0 [CSetVar x_x (CScalarInt 7);
+                           CSetGlobalVar x_r (CCall x_f [CScalarInt 1; CScalarInt 2]);
+                           CSetGlobalVar x_gx (CReadVar x_x)]);
+             (x_f, fn_ab f_body)] [].
+(* g() = [];  main = [r := g()] *)
+Definition ex_nil_module : module :=
+  Module [] [(s_main, fn0 [CSetGlobalVar x_r (CCall x_g [])]); (x_g, fn0 [])] [].
+(* the same f called with three arguments: main = [x := 7; r := f(5, 1, 2); gx := x] *)
+Definition ex_surplus_module : module :=
+  Module [] [(s_main, fn0 [CSetVar x_x (CScalarInt 7);
+                           CSetGlobalVar x_r (CCall x_f [CScalarInt 5; CScalarInt 1; CScalarInt 2]);
+                           CSetGlobalVar x_gx (CReadVar x_x)]);
+             (x_f, fn_ab f_body)] [].
+(* h(a) = [ga := a; a := 99; return 5] called WITHOUT an argument by a caller that has one local:
+   main = [x := 7; r := h(); gx := x] *)
+Definition ex_short_module : module :=
+  Module [] [(s_main, fn0 [CSetVar x_x (CScalarInt 7);
+                           CSetGlobalVar x_r (CCall x_h []);
+                           CSetGlobalVar x_gx (CReadVar x_x)]);
+             (x_h, fn_a [CSetGlobalVar x_ga (CReadVar x_pa); CSetVar x_pa (CScalarInt 99); CUn UReturn (CScalarInt 5)])] [].
+(* h(a) called without an argument on an empty stack: main = [r := h()] *)
+Definition ex_missing_module : module :=
+  Module [] [(s_main, fn0 [CSetGlobalVar x_r (CCall x_h [])]); (x_h, fn_a [])] [].
+(* main = [r := main()] : finding N-C08-3 at run time *)
+Definition ex_callmain_module : module :=
+  Module [] [(s_main, fn0 [CSetGlobalVar x_r (CCall s_main [])])] [].
+
+(* outcome, the globals ga gb r gx, and the live value stack at the end of Vm::run *)
+Definition run_example (F : Vm.fops) (bld : Vm.build) (M : module)
+  : option (Vm.outcome * list (option Vm.value) * list Vm.value) :=
+  match compile M default_options with
+  | COk B =>
+      let P := to_vm B in
+      let r := Vm.run F bld 2000 P Vm.fresh_state in
+      Some (fst r, map (Vm.read_var_by_name P (snd r)) [x_ga; x_gb; x_r; x_gx], VmProofs.stack_of (snd r))
+  | _ => None
+  end.
+
+(* the last argument is the first parameter; the caller gets the returned value; its local is intact *)
+Lemma ex_call_binding : forall F bld,
+  run_example F bld ex_bind_module =
+    Some (Vm.OOk, [Some (Vm.VInt 2); Some (Vm.VInt 1); Some (Vm.VInt 1); Some (Vm.VInt 7)], []).
+Proof. intros F bld. destruct bld; vm_compute; reflexivity. Qed.
+
+(* a function without Return yields nil *)
+Lemma ex_call_nil : forall F bld,
+  run_example F bld ex_nil_module = Some (Vm.OOk, [None; None; Some Vm.VNil; None], []).
+Proof. intros F bld. destruct bld; vm_compute; reflexivity. Qed.
+
+(* surplus arguments: the callee sees the LAST two (a = 2, b = 1); the first one (5) is not consumed by the
+   call: it is still on the caller's stack afterwards (main's closing Pop removes it instead of x's slot, and
+   the run ends with one value left on the stack) *)
+Lemma ex_call_surplus : forall F bld,
+  run_example F bld ex_surplus_module =
+    Some (Vm.OOk, [Some (Vm.VInt 2); Some (Vm.VInt 1); Some (Vm.VInt 1); Some (Vm.VInt 7)], [Vm.VInt 7]).
+Proof. intros F bld. destruct bld; vm_compute; reflexivity. Qed.
+
+(* too few arguments while the caller has a slot on the stack: no MissingArgument; the callee's parameter a IS
+   the caller's local x (ga = 7), and after the Return the caller's local is gone (gx = nil, not 7) *)
+Lemma ex_short_call : forall F bld,
+  run_example F bld ex_short_module =
+    Some (Vm.OOk, [Some (Vm.VInt 7); None; Some (Vm.VInt 5); Some Vm.VNil], []).
+Proof. intros F bld. destruct bld; vm_compute; reflexivity. Qed.
+
+(* too few arguments and nothing else on the stack: MissingArgument *)
+Lemma ex_missing_argument : forall F bld,
+  exists tr, run_example F bld ex_missing_module = Some (Vm.OErr Vm.EMissingArgument tr, [None; None; None; None], []).
+Proof. intros F bld. eexists. destruct bld; vm_compute; reflexivity. Qed.
+
+(* a static call of main: ProcedureNotFound(Handle(position of main)) at run time (N-C08-3) *)
+Lemma ex_call_main_not_found : forall F bld,
+  exists tr, run_example F bld ex_callmain_module =
+    Some (Vm.OErr (Vm.EProcedureNotFound (handle_from_u64 0)) tr, [None; None; None; None], []).
+Proof. intros F bld. eexists. destruct bld; vm_compute; reflexivity. Qed.
+
+(* the static side of ex_bind_module: the hypotheses of call_executes_designated_body hold, the call site of main
+   resolves to function 1 (f, two parameters), the pair FunctionPointer; CallFunction lies at bytes 32 / 41, and
+   labels[Handle(1)] = 59 is where f's code starts: ReadLocalVar 1 = parameter a (local n - 1 - m = 2 - 1 - 0) *)
+Lemma ex_bind_static :
+  module_names_dotfree (with_std std_module ex_bind_module) = true /\
+  label_keys_distinct_module ex_bind_module 64 = true /\
+  spec_resolve (with_std std_module ex_bind_module) [] [] x_f = SFound ([], x_f) /\
+  fn_position (with_std std_module ex_bind_module) [] x_f 0 = Some 1%nat /\
+  exists B, compile ex_bind_module default_options = COk B /\
+    nm_find (handle_from_u64 1) (p_labels B) = Some 59 /\
+    match decode (p_bytecode B) with
+    | Some l => In (32%nat, IFunctionPointer (handle_from_u64 1) 2) l /\ In (41%nat, ICallFunction) l /\
+                In (59%nat, IReadLocalVar 1) l
+    | None => False
+    end.
+Proof.
+  split; [vm_compute; reflexivity|]. split; [vm_compute; reflexivity|].
+  split; [vm_compute; reflexivity|]. split; [vm_compute; reflexivity|].
+  destruct (compile ex_bind_module default_options) as [B| | |] eqn:Ec; try (vm_compute in Ec; discriminate).
+  exists B. split; [reflexivity|]. vm_compute in Ec. injection Ec as <-.
+  split; [vm_compute; reflexivity|]. vm_compute. repeat split; tauto.
+Qed.
